@@ -2,6 +2,8 @@
    computeHamiltonDeltas (pkg/scheduler/plugins/elasticquota/core/runtime_quota_calculator.go).
    Executable, total, no proofs in this file. *)
 From Coq Require Import List ZArith Bool.
+(* [sumZ] comes from Lib.ListX, the stable insertion sort [sort_by] from Lib.SortX *)
+From Verif Require Export Lib.ListX Lib.SortX.
 Import ListNotations.
 Open Scope Z_scope.
 
@@ -16,17 +18,6 @@ Definition eff_min (n : node) : Z := Z.max (qmin n) (guarantee n).
 Definition needs_adjust (n : node) : bool := eff_min n <? request n.
 Definition init_runtime (n : node) : Z :=
   if needs_adjust n then eff_min n else if lend n then request n else eff_min n.
-
-Definition sumZ (l : list Z) : Z := fold_right Z.add 0 l.
-
-(* ---------- stable insertion sort ---------- *)
-Fixpoint insert_by {A} (leb : A -> A -> bool) (x : A) (l : list A) : list A :=
-  match l with
-  | [] => [x]
-  | y :: t => if leb x y then x :: l else y :: insert_by leb x t
-  end.
-Definition sort_by {A} (leb : A -> A -> bool) (l : list A) : list A :=
-  fold_right (insert_by leb) [] l.
 
 (* ---------- computeHamiltonDeltas ---------- *)
 Definition pos_weight (n : node) : bool := 0 <? weight n.
